@@ -95,6 +95,16 @@ Section Stmts.
   Variables W0s W0d : sset.
   Variable pe : penv.
   Variable s : st.
+  (* the mapper hop of the job: none, or there is no mapper method to call *)
+  Variable mh : option path.
+  Hypothesis MHok : mh = None \/ fns = [].
+
+  Lemma func_ok_here d r w h : just e fns d r w -> In h (strategies d w r) -> func_ok mh h = true.
+  Proof.
+    intros J H. destruct MHok as [->|E]; [apply func_ok_none|].
+    pose proof (strategies_applicable e fns d r w h J H) as A. destruct h; try reflexivity.
+    simpl in A. destruct A as (fn & I & _). rewrite E in I. contradiction.
+  Qed.
 
   Notation tm := (p_tags ps).
   Notation LFs := (rleaves e (S F) sfs).
@@ -146,7 +156,7 @@ Section Stmts.
   Let dst_alloc := ptr_path_list sigma (p_ptr pd) (s_dst s) wr_dst.
 
   Theorem to_stmts_ok :
-    forallb (stmt_ok pe true None LFs LFd HPd dst_alloc) (to_stmts spaths src_need s) = true.
+    forallb (stmt_ok pe true mh LFs LFd HPd dst_alloc) (to_stmts spaths src_need s) = true.
   Proof.
     apply forallb_forall. intros st Hst. apply to_stmts_in in Hst.
     destruct Hst as (i & j & h & Hi & T & Hh & ->).
@@ -155,7 +165,7 @@ Section Stmts.
     destruct (src_ok i Hi) as (rl & Irl & Prl & Trl & Arl).
     destruct (dst_ok j Hj) as (wl & Iwl & Pwl & Twl & Awl).
     destruct (i2_rmap _ _ _ _ _ _ _ I2 i j Hi T) as (RM & RIn).
-    unfold stmt_ok. cbn [st_src st_dst st_how st_guard]. rewrite Arl, Awl, func_ok_none. cbn [negb andb].
+    unfold stmt_ok. cbn [st_src st_dst st_how st_guard]. rewrite Arl, Awl, (func_ok_here true _ _ h J Hh). cbn [negb andb].
     assert (E1 : r_path (ref_of (src_at s i)) = rl_path rl) by (rewrite Prl; reflexivity).
     assert (E2 : r_path (ref_of (dst_at s j)) = rl_path wl) by (rewrite Pwl; reflexivity).
     rewrite E1, E2.
@@ -182,7 +192,7 @@ Section Stmts.
   Qed.
 
   Theorem from_stmts_ok :
-    forallb (stmt_ok pe false None LFd LFs HPs src_alloc) (from_stmts dpaths dst_need s) = true.
+    forallb (stmt_ok pe false mh LFd LFs HPs src_alloc) (from_stmts dpaths dst_need s) = true.
   Proof.
     apply forallb_forall. intros st Hst. apply from_stmts_in in Hst.
     destruct Hst as (j & i & h & Hj & T & Hh & ->).
@@ -191,7 +201,7 @@ Section Stmts.
     destruct (src_ok i Hi) as (wl & Iwl & Pwl & Twl & Awl).
     destruct (dst_ok j Hj) as (rl & Irl & Prl & Trl & Arl).
     pose proof (i2_wmap _ _ _ _ _ _ _ I2 j i Hj T) as WM.
-    unfold stmt_ok. cbn [st_src st_dst st_how st_guard]. rewrite Arl, Awl, func_ok_none. cbn [negb andb].
+    unfold stmt_ok. cbn [st_src st_dst st_how st_guard]. rewrite Arl, Awl, (func_ok_here false _ _ h J Hh). cbn [negb andb].
     assert (E1 : r_path (ref_of (dst_at s j)) = rl_path rl) by (rewrite Prl; reflexivity).
     assert (E2 : r_path (ref_of (src_at s i)) = rl_path wl) by (rewrite Pwl; reflexivity).
     rewrite E1, E2.
@@ -221,12 +231,13 @@ End Stmts.
 Lemma plain_gen_spec jb : plain_gen jb = true ->
   j_src_acc jb = [] /\ j_dst_acc jb = [] /\ j_src_ctor jb = [] /\ j_dst_ctor jb = [].
 Proof.
-  unfold plain_gen. destruct (j_src_acc jb), (j_dst_acc jb), (j_src_ctor jb), (j_dst_ctor jb), (j_mapper_hop jb); try discriminate. auto.
+  unfold plain_gen. destruct (j_src_acc jb), (j_dst_acc jb), (j_src_ctor jb), (j_dst_ctor jb); try discriminate. auto.
 Qed.
 
-Lemma plain_gen_hop jb : plain_gen jb = true -> j_mapper_hop jb = None.
+Lemma plain_gen_hop jb : plain_gen jb = true -> j_mapper_hop jb = None \/ j_funcs jb = [].
 Proof.
-  unfold plain_gen. destruct (j_src_acc jb), (j_dst_acc jb), (j_src_ctor jb), (j_dst_ctor jb), (j_mapper_hop jb); try discriminate. auto.
+  unfold plain_gen. destruct (j_src_acc jb), (j_dst_acc jb), (j_src_ctor jb), (j_dst_ctor jb); try discriminate.
+  destruct (j_mapper_hop jb); auto. destruct (j_funcs jb); auto. discriminate.
 Qed.
 
 Definition state0 (ps pd : parsed) (ws wd : sset) : st :=
@@ -386,16 +397,16 @@ Section Job.
       specialize (SG nn Hnn). destruct (find_job jobs (fst nn)) as [jb'|] eqn:FJ; [|discriminate].
       apply String.eqb_eq in SG. destruct (FindPlans _ _ FJ) as (tp & X & Y). exists tp. split; auto. congruence. }
     pose proof (to_stmts_ok e Ewf Eok F (j_src jb) (j_dst jb) sfs dfs LkS LkD ps pd ParseS ParseD sigma Sigma
-                  (j_ic jb) (j_funcs jb) ws wd pe s2 I2 NdS FlS FlD SubOK) as TOK.
+                  (j_ic jb) (j_funcs jb) ws wd pe s2 (j_mapper_hop jb) (plain_gen_hop _ PL) I2 NdS FlS FlD SubOK) as TOK.
     pose proof (from_stmts_ok e Ewf Eok F (j_src jb) (j_dst jb) sfs dfs LkS LkD ps pd ParseS ParseD sigma Sigma
-                  (j_ic jb) (j_funcs jb) ws wd pe s2 I2 NdD FlS FlD SubOK) as FOK.
+                  (j_ic jb) (j_funcs jb) ws wd pe s2 (j_mapper_hop jb) (plain_gen_hop _ PL) I2 NdD FlS FlD SubOK) as FOK.
     destruct (alloc_list_ok e Ewf Eok F PDst (j_dst jb) dfs LkD false pd ParseD sigma Sigma SufD ZD (s_dst s2) FlD
                 (fun f => existsb (fun kv => String.eqb (f_name f) (snd kv)) (s_rmap s2))) as (AD1 & AD2).
     destruct (alloc_list_ok e Ewf Eok F PSrc (j_src jb) sfs LkS true ps ParseS sigma Sigma SufS ZS (s_src s2) FlS
                 (fun f => match m_get (s_wmap s2) (f_name f) with Some _ => true | None => false end)) as (AS1 & AS2).
     assert (DS : decl_fields e PSrc (j_src jb) = sfs) by (unfold decl_fields; rewrite LkS; auto).
     assert (DD : decl_fields e PDst (j_dst jb) = dfs) by (unfold decl_fields; rewrite LkD; auto).
-    rewrite DS, DD, (plain_gen_hop _ PL).
+    rewrite DS, DD.
     split; [|split; [|split; [|split; [|split]]]]; auto.
     - unfold plan_safe. rewrite CT, AT, ST. rewrite AD1, AD2. rewrite with_ty_fst. exact TOK.
     - unfold plan_safe. rewrite CF, AF, SF, RS. rewrite AS1, AS2. rewrite with_ty_fst. exact FOK.
